@@ -375,7 +375,7 @@ def describe_header(case, obs):
 
 
 # ------------------------------------------------------------------ version strings
-VERSIONS = ["0.2.0", "0.2.1", "0.2.10", "0.1.0", "0.0.1", "0.3.0", "1.0.0", "1.2.0", "0.10.0", "2.1.5", "0.20.0", "0.21.4", "0.200.1", "0.12.0", "10.2.0", "20.2.0", "0.22.2"]  # incl. versions that merely share a textual prefix with the supported one
+VERSIONS = ["0.2.0", "0.2.1", "0.2.10", "0.1.0", "0.0.1", "0.3.0", "1.0.0", "1.2.0", "0.10.0", "2.1.5", "0.20.0", "0.21.4", "0.200.1", "0.12.0", "10.2.0", "20.2.0", "0.22.2", "0.9.0", "0.19.9", "1.10.0", "0.100.0", "0.02.0", "00.2.0", "0.2.00", "0.1.99", "0.11.3"]  # incl. versions that merely share a textual prefix with the supported one
 
 
 def gen_versions(rng, tier):
@@ -423,6 +423,26 @@ def impl_versions(case):
     return {"raised": raised, "errors": sum(1 for l, _ in cap.records if l == "ERROR"), "warnings": sum(1 for l, _ in cap.records if l == "WARNING"), "unsupported_reported": n > base, "strict_refused": strict, "loaded": len(h.data or {})}
 
 
+def model_req_versions(case):
+    from haptools.data import Haplotypes
+
+    # the reader's own version string, as the implementation states it
+    return {"op": "hapVersion", "observed": case["version"] or "", "expected": str(getattr(Haplotypes("x.hap", log=SD.silent_log()), "version", "0.2.0"))}
+
+
+def model_obs_versions(case, resp):
+    return {"verdict": resp["verdict"]}
+
+
+def equal_versions(a, b):
+    if b["verdict"] is None:
+        return True  # no version line / not a three-number string: outside the model
+    if "error" in a:
+        return False
+    refused = a["raised"] is not None or (a["unsupported_reported"] and a.get("strict_refused") is not False)
+    return refused == (b["verdict"] == "unsupported")
+
+
 def oracle_versions(case, obs):
     if "error" in obs:
         return f"raised {obs}"
@@ -446,7 +466,7 @@ def oracle_versions(case, obs):
 CHECK = Check(
     id="C06",
     title=".hap files round-trip and are parsed according to their header",
-    theorems=["C06.read_write", "C06.write_read_write", "C06.comments_ignored", "C06.comment_shapes", "C06.binding_by_order_line", "C06.unrequested_skipped", "C06.undeclared_required_reported", "C06.version_reported", "C06.version_accepted"],
+    theorems=["C06.read_write", "C06.write_read_write", "C06.comments_ignored", "C06.comment_shapes", "C06.binding_by_order_line", "C06.unrequested_skipped", "C06.undeclared_required_reported", "C06.version_reported", "C06.version_accepted", "C06.version_string_reported"],
     sections=[
         Section(
             name="write_shuffle_read",
@@ -479,9 +499,12 @@ CHECK = Check(
         ),
         Section(
             name="version_strings",
-            theorems=["C06.version_reported", "C06.version_accepted"],
+            theorems=["C06.version_reported", "C06.version_accepted", "C06.version_string_reported"],
             gen=gen_versions,
             impl=impl_versions,
+            model_req=model_req_versions,
+            model_obs=model_obs_versions,
+            equal=equal_versions,
             oracle=oracle_versions,
             setup=setup,
             teardown=teardown,
